@@ -337,7 +337,13 @@ class Gen(object):
         refs = self.sch.referential(c['kind'])
         attrs = self.sch.attrs(c['kind'])
         px = self.cfg['p_exotic']
-        spk = (lambda n: self.sp(n)) if (mode == 'kw' or self.prop in ('C10', 'C19')) else (lambda n: n)
+        def spk(n):
+            if not (mode == 'kw' or self.prop in ('C10', 'C19')):
+                return n
+            sp = self.sp(n)
+            # `kind=` / `self=` collide with the parameters of MetaModel.new / MetaClass.new (a known finding, asked
+            # for once at the end of some C10 histories): every other spelling here
+            return n if sp in ('kind', 'self') else sp
         if mode == 'args':
             # positional arguments up to the first referential attribute, then keywords
             npos = rng.randint(0, len(attrs))
@@ -360,7 +366,7 @@ class Gen(object):
             if rng.random() < 0.3 and op['kw']:
                 # the same attribute twice under two spellings: the later keyword wins
                 sp0, _ = rng.choice(op['kw'])
-                alt = [x for x in spellings(self.sch.declared(c['kind'], sp0)) if x != sp0]
+                alt = [x for x in spellings(self.sch.declared(c['kind'], sp0)) if x != sp0 and x not in ('kind', 'self')]
                 if alt:
                     op['kw'].append([rng.choice(alt), draw_value(rng, self.sch.attr_type(c['kind'], sp0), px)])
             rng.shuffle(op['kw'])
@@ -937,6 +943,13 @@ class Gen(object):
                 continue
             for o in (op if isinstance(op, list) else [op]):
                 self.emit(o, actor)
+        if self.prop == 'C10' and rng.random() < 0.3:
+            # the last word of some histories: a keyword spelled exactly like a parameter of the constructor
+            cand = [(c, n) for c in self.good_classes for n, _ in self.plain_attrs(c['kind']) if n in ('Kind', 'Self')]
+            if cand and len(self.live_all()) < self.cfg['max_live']:
+                c, n = rng.choice(cand)
+                self.emit({'op': 'new', 'h': self.handle(), 'kind': c['kind'], 'args': [], 'collide': True,
+                           'kw': [[n.lower(), self.value_for(c['kind'], n)]], 'via': 'mm' if n == 'Kind' else 'mc'}, 0)
         if self.prop == 'C02' and self.dead and rng.random() < 0.3:
             # the last word of some histories: a relate that names a deleted instance (last, because the answer of
             # the implementation is a known finding and a run ends at its first violation)
@@ -1497,6 +1510,9 @@ class Exec(object):
                     raise act_exc
                 if exp[0] == 'any':
                     pass
+                elif op.get('collide') and isinstance(act_exc, TypeError):
+                    raise Violation('outcome', 'step %d %r: the keyword is taken for a parameter of the constructor: %s'
+                                    % (self.step, op, act_exc), 'outcome:new:keyword-collides-with-parameter')
                 else:
                     import traceback
                     tb = traceback.extract_tb(act_exc.__traceback__)
